@@ -9,14 +9,18 @@
     the complex variant); every factor outside act_design (an implied derived
     factor: no variables, no Derivation constraints) a derived factor of
     simple / WithinTrial act_design factors with any such window, exactly one
-    of whose levels accepts every argument tuple; sustain 1; any number of
+    of whose levels accepts every argument tuple; any positive sustain counts
+    (Nest / Repeat, with the Sustain constraint) on the simple / WithinTrial
+    factors of act_design, a WithinTrial factor sustained no longer than the
+    factors it reads (sustain 1 on complex windows and implied factors); any number of
     crossings and chunks (partial last chunk, crossing weights, weighted
     levels), each starting after its preamble, a crossed factor with a
     complex window having stride 1 and its first level no later than the
     first crossing trial; kinds Consistency / Cross / Derivation /
     AtMostKInARow / AtLeastKInARow / ExactlyKInARow / ExactlyK / Exclude (on a
     factor with a complex window: stride 1) / Pin / Sequential (on factors
-    without a complex window; Sequential without a preamble); combinations
+    without a complex window; Pin and Sequential on unsustained factors,
+    Sequential without a preamble); combinations
     left out of a crossing by Exclude constraints or by a crossed derived
     level no compatible arguments satisfy)
     every model of the formula the samplers hand to the solver
@@ -145,3 +149,12 @@ Example C01_example_transition :
   hd nil (all_valid (code_sem ex_transition)) =
     ((Some 0 :: Some 1 :: Some 1 :: Some 0 :: Some 0 :: nil) :: (None :: Some 1 :: Some 0 :: Some 1 :: Some 0 :: nil) :: nil)%nat.
 Proof. exact ex_transition_facts. Qed.
+
+(** ... and by a Nest: sustained outer factor, the Sustain constraint *)
+Example C01_example_nest :
+  in_f1 ex_nest = true /\ (0 < T ex_nest)%nat /\ sustain_of ex_nest 0 = 2%nat /\
+  (exists b, compile ex_nest = COk b /\ b_fresh b = 84%Z) /\
+  length (all_valid (code_sem ex_nest)) = 8%nat /\
+  hd nil (all_valid (code_sem ex_nest)) =
+    ((Some 1 :: Some 1 :: Some 0 :: Some 0 :: nil) :: (Some 1 :: Some 0 :: Some 1 :: Some 0 :: nil) :: nil)%nat.
+Proof. exact ex_nest_facts. Qed.
